@@ -36,7 +36,7 @@ TRUSTED = ["Coq 8.16.1 kernel", "extraction (ExtrOcamlBasic only; Z/positive/nat
            "modelled, not verified: the copy loops of copy_sds/copy_gr/copy_vs/copy_an/vgroup_insert themselves "
            "(content preservation of the real code rests on the differential run), fscanf tokenisation of the option file, "
            "the HDF4 library underneath hrepack (see C03/C04/C07-C11)"]
-ASSUMPTIONS = ["domain: JPEG and SZIP requests excluded (lossy / not built); object names unique among siblings and free of "
+ASSUMPTIONS = ["the interlace of an image is storage layout (the GR interface stores every image it creates pixel-interlaced); pixels are compared in pixel interlace", "domain: JPEG and SZIP requests excluded (lossy / not built); object names unique among siblings and free of "
                "',' ':' '\"' and blanks; default dimension names (fakeDim<n>) are not content (the library renumbers them "
                "when it writes the file); sibling order and reference numbers are not content",
                "an unlimited dimension is storage layout, not content (hrepack makes a record variable fixed-size when it "
@@ -269,11 +269,24 @@ def gen_file(r, knobs=None):
         shadow.append(dict(path=g[1], kind="vg", rank=0, dims=[], bytes=0, rec=False, empty=False))
     for _ in range(r.choice([0, 0, 1, 2])):
         lines.append("gattr sd %s %d %d %d" % (hx(fresh("gsd")), flav(r, r.choice(NTS), False), r.choice([1, 2, 7]), r.randrange(1, 10 ** 6)))
-    if ngr and r.random() < 0.4:
+    # GR file attributes exist with or without images (the GR interface of an image-less file still has content)
+    if r.random() < (0.4 if ngr else 0.3):
         lines.append("gattr gr %s %d %d %d" % (hx(fresh("ggr")), flav(r, r.choice(NTS)), r.choice([1, 2, 7]), r.randrange(1, 10 ** 6)))
     for kind in ("label", "desc"):
         for _ in range(r.choice([0, 0, 1, 2])):
             lines.append("fann %s %s" % (kind, hx(fresh("file_" + kind) + " text")))
+    # old-style raster images (DFR8 / DF24): several 8-bit images share ONE palette object; 24-bit images have none
+    if r.random() < 0.2 and not knobs.get("nogr"):
+        for _ in range(r.choice([1, 1, 2])):
+            if r.random() < 0.85:
+                lines.append("r8pal %d" % r.randrange(1, 10 ** 6))
+            for _ in range(r.choice([1, 2, 2, 3])):
+                lines.append("r8 %d %d %d %d" % (r.randrange(1, 13), r.randrange(1, 13), r.randrange(1, 10 ** 6), r.choice([0, 0, 1])))
+            # DF24addimage into a file that already holds images written through the GR interface can reuse their
+            # reference numbers and clobber them (a defect of the old interface, outside this property: the INPUT is then
+            # already inconsistent), so 24-bit old-style images go into files without new-style images only
+            if r.random() < 0.4 and ngr == 0:
+                lines.append("r24 %d %d %d %d" % (r.randrange(1, 9), r.randrange(1, 9), r.randrange(1, 10 ** 6), r.choice([0, 1, 2])))
     if r.random() < 0.25:
         for _ in range(r.choice([1, 1, 2, 3, 4])):
             lines.append("lonepal %d" % r.randrange(1, 10 ** 6))
@@ -427,6 +440,11 @@ def parse_dump(lines):
                         c = " ".join(t)
                 except ValueError:
                     pass
+            if t[0] == "palette" and len(t) >= 3 and t[2] == "21":
+                # the GR interface reports DFNT_UCHAR8 (3) for the palettes it wrote and DFNT_UINT8 (21) for palettes of
+                # old-style (DFR8) images: the same 8-bit unsigned entries
+                t[2] = "3"
+                c = " ".join(t)
             stack[-1].C.append(c)
         elif l.startswith("L "):
             stack[-1].L = l[2:]
@@ -810,7 +828,7 @@ def script_blocks(script):
     blocks, cur = [], []
     for l in script:
         op = l.split()[0]
-        if op in ("vg", "sds", "gr", "vs", "gattr", "fann", "lonepal", "link") and cur:
+        if op in ("vg", "sds", "gr", "vs", "gattr", "fann", "lonepal", "link", "r8pal", "r8", "r24") and cur:
             blocks.append(cur)
             cur = []
         cur.append(l)
@@ -933,7 +951,11 @@ def gen_large_cases(r):
 
 def gen_case(r, cid):
     kind = r.random()
-    script, shadow = gen_file(r)
+    # a tenth of the files lack a whole kind of object (no SDS, no image, neither): what an interface holds besides
+    # its objects (file attributes, annotations) must survive on its own
+    k2 = r.random()
+    knobs = {"nosds": k2 < 0.07 or 0.10 <= k2 < 0.13, "nogr": 0.07 <= k2 < 0.13}
+    script, shadow = gen_file(r, knobs)
     if kind < 0.08:
         # malformed option strings: no structured form, only the refusal is compared
         raw = r.choice(MALFORMED) if r.random() < 0.6 else None
